@@ -82,8 +82,11 @@ def run(vectors: dict, tests: list[str], timeout=900):
         cmd = ["cargo", "test", "--offline", "--test", "verif_contracts", "--"] + list(tests) + ["--exact", "--nocapture", "--test-threads=1"]
         p = subprocess.run(cmd, cwd=d, env=env, capture_output=True, text=True, timeout=timeout)
         out = p.stdout + "\n" + p.stderr
-        comps, fails = {}, []
+        comps, fails, classes = {}, [], []
         for ln in out.splitlines():
+            m = re.search(r"VERIF-CLASS component=(\S+) count=(\d+) key=(.*)", ln.strip())
+            if m:
+                classes.append(dict(component=m.group(1), count=int(m.group(2)), key=m.group(3)))
             m = re.search(r"VERIF-DONE component=(\S+) cases=(\d+) checks=(\d+) failures=(\d+)", ln.strip())
             if m:
                 comps[m.group(1)] = dict(cases=int(m.group(2)), checks=int(m.group(3)), failures=int(m.group(4)))
@@ -95,7 +98,7 @@ def run(vectors: dict, tests: list[str], timeout=900):
         missing_done = [t for t in tests if t not in comps]
         if p.returncode != 0 or missing_done:
             status, why = "error", f"rust harness exit {p.returncode}; no summary for {missing_done}: {out[-1500:]}"
-        return dict(status=status, why=why, components=comps, fails=fails, build_s=build_s, run_s=round(time.time() - tr, 1),
+        return dict(status=status, why=why, components=comps, fails=fails, classes=classes, build_s=build_s, run_s=round(time.time() - tr, 1),
                     wall_s=round(time.time() - t0, 1), crates={k: v[0] for k, v in crates.items()})
     except subprocess.TimeoutExpired:
         return dict(status="error", why="rust harness timeout")
@@ -313,16 +316,24 @@ def reports(res, vectors, components):
     for comp in components:
         c = (res.get("components") or {}).get(comp, {})
         fails = [f for f in res.get("fails", []) if f["component"] == comp]
-        failed, seen = [], set()
-        for f in fails:
-            if f["case"] in seen or len(failed) >= 3:
-                continue
-            seen.add(f["case"])
-            case = vectors[comp][f["case"]]
-            failed.append(dict(name=f"rust:{comp}", detail=f"case {f['case']} step {f['step']}: {f['what']}", model=dict(case=case), backend="rust-harness"))
+        failed = []
+        if isinstance(vectors[comp], dict):
+            # law-based component: one entry per failure class reported by the harness
+            for cl in [x for x in res.get("classes", []) if x["component"] == comp]:
+                ex = next((f["what"] for f in fails if f["what"].startswith(cl["key"])), cl["key"])
+                failed.append(dict(name=f"rust:{comp}", detail=f"{cl['count']} x {ex}", model=dict(case=vectors[comp], key=cl["key"]), backend="rust-harness"))
+            nfailed = len(failed)
+        else:
+            seen = set()
+            for f in fails:
+                if f["case"] in seen or len(failed) >= 3:
+                    continue
+                seen.add(f["case"])
+                case = vectors[comp][f["case"]]
+                failed.append(dict(name=f"rust:{comp}", detail=f"case {f['case']} step {f['step']}: {f['what']}", model=dict(case=case), backend="rust-harness"))
+            nfailed = max(len({f["case"] for f in fails}), len(failed)) if c.get("failures", 0) else 0
         out.append(dict(unit=dict(kind="rust-standin", component=comp, replayer="props.rust_standin:replay"), status="ok", obligations=0, proved=0,
-                        failed=failed, nfailed=len({f["case"] for f in fails}) if c.get("failures", 0) <= 40 else max(c.get("failures", 0), len(failed)),
-                        allow_empty=True, stats={}))
+                        failed=failed, nfailed=nfailed, allow_empty=True, stats={}))
     return out
 
 
@@ -334,10 +345,11 @@ def replay(body):
     if case is None:
         return 4, "no case recorded"
     comp = unit["component"]
-    res = run({comp: [case]}, [comp])
+    key = model.get("key")
+    res = run({comp: case if key is not None else [case]}, [comp])
     if res.get("status") != "ok":
         return 3, f"stand-in could not run: {res.get('why')}"
-    f = res.get("fails") or []
+    f = [x for x in (res.get("fails") or []) if key is None or x["what"].startswith(key)]
     if f:
         return 1, f"compiled Rust {comp}: " + "; ".join(x["what"] for x in f[:4])
     return 0, "the case passes on the compiled Rust code"
